@@ -3,6 +3,7 @@ package main
 import (
 	"fmt"
 	"go/token"
+	"go/types"
 	"sort"
 	"strings"
 
@@ -21,6 +22,10 @@ func init() {
 		ruleR2(c, "C07.U6")
 		ruleU7(c, "C07.U7")
 		ruleU8(c, "C07.U8")
+		// a transaction the journal refuses makes it forget how far COMMIT must flush (as U5): Shrink must keep its
+		// transaction within the log, counting the bitmap blocks of the commit
+		ruleShrinkReserve(c, "C07.U9")
+		ruleU10(c, "C07.U10")
 	}
 }
 
@@ -763,5 +768,179 @@ func ruleU8(c *Ctx, id string) {
 		}
 		k, ok := constValInt(o)
 		R.Check(ok && k == want, id, "nfstypes."+name, P.Pos(o.Pos()), fmt.Sprintf("%s = %d as in RFC 1813", name, want), fmt.Sprintf("value %d", k), fmt.Sprintf("%s has the value %d: a write asked for with stable = %d on the wire is committed - and acknowledged - at another level than the client asked for", name, k, want))
+	}
+}
+
+// ruleU10: a client detects the loss of unstable data by comparing verifiers;
+// two server instances must not share one.  U3 decides where the verifier comes
+// from (the nanosecond clock, or a random source); this rule decides that the
+// bytes keep what the source gives: byte i of the verifier is a window of the
+// source value selected by a shift that depends on i.  Arithmetic on the way
+// (byte(now>>8 * i) for byte(now >> (8*i))) makes every byte a function of the
+// same eight bits: 256 possible verifiers, one restart in 256 undetectable.
+// Recognised: verf[i] = byte(src >> (8*i)) in any spelling of 8*i; the loop that
+// shifts the value down by 8 per byte; unrolled stores with distinct constant
+// shifts; the array filled by encoding/binary or a random source.
+func ruleU10(c *Ctx, id string) {
+	P, R := c.P, c.R
+	R.Rule(id, "the verifier keeps the resolution of its source: every byte stored into a Writeverf3 in package nfs is a window of the source value selected by a shift that depends on the byte's index (or the array is filled by encoding/binary / a random source)", 1)
+	vt := P.Named("nfstypes", "Writeverf3")
+	if vt == nil {
+		R.Unresolved(id, "nfstypes.Writeverf3")
+		return
+	}
+	isVerfArr := func(v ssa.Value) bool {
+		t := v.Type()
+		if p, ok := t.Underlying().(*types.Pointer); ok {
+			t = p.Elem()
+		}
+		n, _ := t.(*types.Named)
+		return n == vt
+	}
+	n := 0
+	for _, fn := range P.RepoFuncs("nfs") {
+		type byteStore struct {
+			st  *ssa.Store
+			idx ssa.Value
+		}
+		var stores []byteStore
+		filledBy := ""
+		for _, b := range fn.Blocks {
+			for _, in := range b.Instrs {
+				if st, ok := in.(*ssa.Store); ok {
+					if ia, ok := st.Addr.(*ssa.IndexAddr); ok && isVerfArr(ia.X) {
+						stores = append(stores, byteStore{st, ia.Index})
+					}
+				}
+				if call, ok := in.(*ssa.Call); ok {
+					for _, a := range call.Call.Args {
+						if sl, ok := stripConv(a).(*ssa.Slice); ok && isVerfArr(sl.X) {
+							if g := staticCallee(call); g != nil && funcPkg(g) != nil {
+								switch funcPkg(g).Path() {
+								case "encoding/binary", "crypto/rand", "math/rand":
+									filledBy = funcPkg(g).Path() + "." + g.Name()
+								}
+							}
+						}
+					}
+				}
+			}
+		}
+		if filledBy != "" {
+			n++
+			R.Analysed[FuncName(fn)] = true
+			R.Pass(id, FuncName(fn)+"|verifier filled by a library routine", P.Pos(fn.Pos()), "the whole array is written by "+filledBy, filledBy)
+		}
+		// the index-dependent shift
+		dependsOn := func(v, idx ssa.Value) bool {
+			for x := range bwdAll(v) {
+				if x == idx || stripConv(x) == stripConv(idx) {
+					return true
+				}
+			}
+			return false
+		}
+		constShifts := map[int64]bool{}
+		for i, bs := range stores {
+			n++
+			R.Analysed[FuncName(fn)] = true
+			key := fmt.Sprintf("%s|verifier byte store#%d", FuncName(fn), i+1)
+			v := stripConv(bs.st.Val)
+			ok, why := false, ""
+			switch x := v.(type) {
+			case *ssa.BinOp:
+				if x.Op == token.SHR {
+					if k, isk := constInt(x.Y); isk {
+						// an unrolled store: distinct multiples of 8
+						if k%8 == 0 && !constShifts[k] {
+							constShifts[k] = true
+							ok = true
+						} else {
+							why = fmt.Sprintf("shift by the constant %d (not a fresh multiple of 8)", k)
+						}
+					} else if dependsOn(x.Y, bs.idx) {
+						ok = true
+						// ... for every byte: the index runs from 0 to the length of the array, and the store lies on the
+						// side of the loop test where the index is below it
+						alen := int64(-1)
+						if at, isA := vt.Underlying().(*types.Array); isA {
+							alen = at.Len()
+						}
+						covers := false
+						if ph, isP := stripConv(bs.idx).(*ssa.Phi); isP {
+							init0, step1 := false, false
+							for _, e := range ph.Edges {
+								if k, isk := constInt(e); isk && k == 0 {
+									init0 = true
+								}
+								if bo, isB := stripConv(e).(*ssa.BinOp); isB && bo.Op == token.ADD && stripConv(bo.X) == ssa.Value(ph) {
+									if k, isk := constInt(bo.Y); isk && k == 1 {
+										step1 = true
+									}
+								}
+							}
+							for _, br := range branches(fn) {
+								if br.Cond.X == nil || br.Cond.Y == nil {
+									continue
+								}
+								op, a, b := br.Cond.Op, br.Cond.X, br.Cond.Y
+								if stripConv(b) == ssa.Value(ph) {
+									op, a, b = flipOp(op), b, a
+								}
+								k, isk := constIntDeep(b)
+								if stripConv(a) != ssa.Value(ph) || !isk {
+									continue
+								}
+								side := br.True
+								if op == token.GEQ {
+									side = br.False
+								}
+								if (op == token.LSS || op == token.GEQ) && k == alen && (side == bs.st.Block() || side.Dominates(bs.st.Block())) {
+									covers = init0 && step1
+								}
+							}
+						}
+						if !covers {
+							ok = false
+							why = fmt.Sprintf("the loop does not store all %d bytes (index from 0, step 1, while index < %d)", alen, alen)
+						}
+					} else {
+						why = "the shift amount does not depend on the byte's index"
+					}
+				} else {
+					why = fmt.Sprintf("the byte is the result of %s, not of a shift of the source: every byte depends on the same low bits", x.Op)
+				}
+			case *ssa.Phi:
+				// now >>= 8 per round
+				for _, e := range x.Edges {
+					if bo, isB := stripConv(e).(*ssa.BinOp); isB && bo.Op == token.SHR && stripConv(bo.X) == ssa.Value(x) {
+						if k, isk := constInt(bo.Y); isk && k == 8 {
+							ok = true
+						}
+					}
+				}
+				if !ok {
+					why = "loop-carried value that is not shifted down by 8 per byte"
+				}
+			default:
+				if k, isk := constInt(bs.idx); isk && k == 0 && !constShifts[0] {
+					// verf[0] = byte(src)
+					constShifts[0] = true
+					ok = true
+				} else {
+					why = "unrecognised form " + symOf(fn, v)
+				}
+			}
+			if ok {
+				R.Pass(id, key, P.Pos(bs.st.Pos()), "the byte is a window of the source selected by its index", symOf(fn, v))
+			} else if strings.HasPrefix(why, "unrecognised") {
+				R.Undecided(id, key, P.Pos(bs.st.Pos()), "the byte is a window of the source selected by its index", why)
+			} else {
+				R.Fail(id, key, P.Pos(bs.st.Pos()), "the byte is a window of the source selected by its index", why+": the verifier takes far fewer values than its source - two server instances share one with noticeable probability, and a client that wrote UNSTABLE before the restart sees its COMMIT succeed with a matching verifier although the data is gone")
+			}
+		}
+	}
+	if n == 0 {
+		R.Undecided(id, "nfs|verifier bytes", "?", "the code that fills the verifier is found", "no byte store into a Writeverf3 and no library fill found in package nfs")
 	}
 }
